@@ -523,9 +523,10 @@ func runGrpcFlow(c *core.Ctx) {
 	encT := p.ExtNamed(load.ModPath+"/errorspb", "EncodedError")
 	c.Check(dec != nil && assertT != nil && encT != nil && types.Identical(sx.Deref(assertT), encT), "client: detail type", cli.Pos(), "*errors.EncodedError, the type the server attaches", "the client does not look for the detail type the server attaches")
 	// returned value: phi(invoker err, decoded) — every non-decoded edge is the invoker's error itself
+	sawInvoker, sawDecoded := false, false
 	for _, r := range sx.Returns(cli) {
 		v := r.Results[0]
-		okAll, sawInvoker, sawDecoded := true, false, false
+		okAll := true
 		var visit func(x ssa.Value, d int)
 		seen := map[ssa.Value]bool{}
 		visit = func(x ssa.Value, d int) {
@@ -553,7 +554,9 @@ func runGrpcFlow(c *core.Ctx) {
 			}
 		}
 		visit(v, 0)
-		c.Check(okAll && sawInvoker && sawDecoded, "client: returned error", r.Pos(), "either the decoded error or the invoker's error value itself",
+		c.Check(okAll, "client: returned error", r.Pos(), "either the decoded error or the invoker's error value itself",
 			"the client returns something other than the decoded error or the invoker's own error (e.g. a status rebuilt from it): pass-through errors change type/identity")
 	}
+	c.Check(sawInvoker && sawDecoded, "client: both outcomes are returned", cli.Pos(), "the decoded error on some path, the invoker's error on another",
+		"the client never returns the decoded error, or never passes the invoker's error through")
 }
